@@ -1,9 +1,46 @@
-// c02 harness: real scheduling cycles (allocate / backfill with the real gang, priority and
-// proportion plugins) against the action skeleton model; law selector 102.
+// c02 harness.
+//
+//	stream 1 (selector 1, laws 102 + 113): real scheduling cycles (allocate / backfill with the real
+//	    gang, priority and proportion plugins) against the action skeleton model;
+//	stream 2 (selector 2, law 112): the real cache.SchedulerCache.AddBindTask called by concurrent
+//	    goroutines against nearly full nodes, replayed by the model in the order the cache
+//	    serialised the calls;
+//	stream 3 (selector 3, law 112): the same against the agent scheduler's cache.
 package main
 
-import "verif/harness/internal/sched"
+import (
+	"verif/harness/internal/sched"
+	"verif/harness/internal/vh"
+)
 
 func main() {
-	sched.CycleHarness(102, false).Main()
+	cyc := sched.CycleHarness(102, false)
+	h := vh.Harness{
+		Run2: func(sel int, in []int64) ([]int64, []int64) {
+			switch sel {
+			case 2:
+				return runBind(in)
+			}
+			return cyc.Run2(sel, in)
+		},
+		Laws: func(sel int, in, got []int64, law func(lsel int, lin []int64, sig string)) {
+			switch sel {
+			case 2:
+				bindLaws(in, law)
+				return
+			}
+			cyc.Laws(sel, in, got, func(lsel int, lin []int64, sig string) {
+				law(lsel, lin, sig)
+				if lsel == 102 {
+					// the hypotheses of cycle_no_overcommit hold of this cycle's initial world
+					law(113, lin, "")
+				}
+			})
+		},
+		Gen: func(rng *vh.Rng, n int, emit func(id string, sel int, in []int64, kind string, nontrivial bool, desc any)) {
+			cyc.Gen(rng, n, emit)
+			genBind(rng.Fork(), n, emit)
+		},
+	}
+	h.Main()
 }
